@@ -211,7 +211,7 @@ func genSeqOps(g *Rand, fl seqFlavour, nslots, n int, thorough bool) []SOp {
 		switch fl {
 		case seqC01:
 			//           join leave sub unsub pub reg unreg call yield inverr cancel
-			w = []int{2, 2, 10, 5, 12, 0, 0, 0, 0, 0, 0}
+			w = []int{2, 2, 10, 5, 12, 0, 0, 0, 0, 0, 0, 2} // meta: only wamp.session.modify_details
 		case seqC03:
 			w = []int{2, 2, 1, 0, 1, 9, 4, 10, 7, 3, 0, 1} // (a few meta calls: departure by kill is a departure too)
 		case seqC05:
@@ -463,9 +463,11 @@ func runSeq(c *Ctx, fl seqFlavour) {
 	strict := g.Chance(1, 4)
 	allowDisclose := g.Chance(2, 3)
 	metaKill := fl == seqC05 || fl == seqC18 || fl == seqC03
+	metaModify := fl == seqC01 || fl == seqC18 || fl == seqC12 || fl == seqC05
 	rc := &router.RealmConfig{URI: "r1", StrictURI: strict, AllowDisclose: allowDisclose, AnonymousAuth: true, EnableMetaKill: metaKill,
-		MetaStrict:     fl == seqC18 && g.Chance(1, 3),
-		Authenticators: []auth.Authenticator{&StaticAuth{Roles: seqRoles}}}
+		MetaStrict:       fl == seqC18 && g.Chance(1, 3),
+		EnableMetaModify: metaModify,
+		Authenticators:   []auth.Authenticator{&StaticAuth{Roles: seqRoles}}}
 	var authz *TableAuthz
 	if fl == seqC10 {
 		authz = &TableAuthz{Seed: c.Spec.GenSeed, DenyPerm: g.Range(100, 350), FailPerm: g.Range(0, 120), RewrPerm: g.Range(0, 250)}
@@ -506,6 +508,7 @@ func runSeq(c *Ctx, fl seqFlavour) {
 		q.IgnoreMeta = true
 	}
 	q.MetaKill = metaKill
+	mr.MetaModify = metaModify
 	if authz != nil {
 		q.Authz = authz
 		q.LocalAuthz = rc.RequireLocalAuthz
@@ -610,11 +613,15 @@ func genMeta(g *Rand, op *SOp, nslots int, fl seqFlavour) {
 		}
 		return wamp.Dict{}
 	}
-	weights := []int{3, 3, 4, 3, 3, 3, 3, 3, 3, 3, 3, 3, 3, 3, 2, 1, 1, 1, 3, 2}
+	weights := []int{3, 3, 4, 3, 3, 3, 3, 3, 3, 3, 3, 3, 3, 3, 2, 1, 1, 1, 3, 2, 4}
 	if fl == seqC05 || (fl == seqC11 && g.Bool()) {
 		// ends by kill, testaments: for C11 the same history runs in every realm, and what a
 		// kill in one realm leaves behind (process-wide state) shows in the others
-		weights = []int{1, 1, 1, 0, 0, 0, 0, 0, 0, 0, 0, 0, 0, 0, 4, 2, 2, 1, 6, 3}
+		weights = []int{1, 1, 1, 0, 0, 0, 0, 0, 0, 0, 0, 0, 0, 0, 4, 2, 2, 1, 6, 3, 1}
+	}
+	if fl == seqC01 {
+		// the broker's business only: a session's attributes change under its subscriptions
+		weights = []int{0, 0, 0, 0, 0, 0, 0, 0, 0, 0, 0, 0, 0, 0, 0, 0, 0, 0, 0, 0, 1}
 	}
 	switch g.Weighted(weights...) {
 	case 0:
@@ -702,6 +709,27 @@ func genMeta(g *Rand, op *SOp, nslots int, fl seqFlavour) {
 		op.Kw = wamp.Dict{}
 		if g.Bool() {
 			op.Kw["scope"] = g.Pick("destroyed", "detached")
+		}
+	case 20:
+		op.URI = "wamp.session.modify_details"
+		delta := wamp.Dict{}
+		switch g.Intn(6) {
+		case 0:
+			delta["authrole"] = g.Pick("admin", "user", "guest", "trusted")
+		case 1:
+			delta["authid"] = g.Pick("alice", "bob", "carol", "zed")
+		case 2:
+			delta["xattr"] = g.Pick("v1", "v2", "v3")
+		case 3:
+			delta[g.Pick("xattr", "authrole")] = nil
+		case 4:
+			delta["xattr"], delta["authrole"] = g.Pick("v1", "v2"), g.Pick("admin", "user")
+		case 5:
+			delta["session"] = 12345
+		}
+		op.Args = wamp.List{sessRef(), delta}
+		if g.Chance(1, 12) {
+			op.Args = wamp.List{sessRef()}
 		}
 	}
 }
